@@ -91,4 +91,16 @@ CHECKS = {
   "note": "Non-termination of evaluation is detected through the resolver's call budget (20000 calls), parse loops through fuel ticks in the lexers.",
   "ref": "DESIGN.md section 3 C09",
  },
+ "C13": {
+  "technique": "model-based property testing (proptest) of generated taxonomies against an adjacency-set/closure model, plus exhaustive enumeration over the real Project Haystack defs (all symbols, all ordered pairs for fits)",
+  "level": "Random acyclic defs grids and records are generated and twelve kinds of namespace queries compared with the subtype-graph model as sets; the shipped defs are enumerated completely for unary queries and the 714x714 fits table. Held on everything explored.",
+  "note": "Answers are compared as sets of def names (plus a no-duplicates check); the defs grid of the real namespace is read with libhaystack's own Zinc decoder.",
+  "ref": "DESIGN.md section 3 C13",
+ },
+ "C14": {
+  "technique": "stateful property testing (proptest): generated query histories against the stateless model, and generated multi-thread schedules steered through schedule-point hooks (biased schedule sampling)",
+  "level": "Histories are deterministic: each generated query sequence is replayed on fresh namespaces in four orders and every answer must equal the model. Schedules: 2-16 threads on one cold namespace with generated delay plans at the caches' critical points; every answer must equal the model, no panic, completion (a stuck schedule is confirmed in a child process before being called a deadlock). Held on everything explored.",
+  "note": "Weakest property for this technique: the OS schedule is biased, not owned (DashMap's locks cannot be replaced by a controllable scheduler). Evidence reports how many schedules had two threads inside the same cache-miss window.",
+  "ref": "DESIGN.md section 3 C14",
+ },
 }
